@@ -92,8 +92,8 @@ bool op_to_spec(const Op& o, CallSpec& c)
 	c.hi.assign(o.d.begin() + c.ndim, o.d.begin() + 2 * c.ndim);
 	c.par.assign(o.d.begin() + 2 * c.ndim, o.d.end());
 	for(int j = 0; j < c.ndim; j++)
-		if(!(c.hi[j] > c.lo[j]))
-			return false;
+		if(!(c.hi[j] != c.lo[j]) || !std::isfinite(c.hi[j]) || !std::isfinite(c.lo[j]))
+			return false;	// (an axis may be given in descending order: the integral changes sign, as in one dimension)
 	if(c.frontend == 2 && c.ndim != 2)
 		c.frontend = 0;
 	if((c.frontend == 3 || c.frontend == 4) && c.ndim != 3)
@@ -329,7 +329,7 @@ CallResult run_call(const CallSpec& c, uint32_t seed)
 		for(int j = 0; j < c.ndim && j < n; j++)
 		{
 			r.pthash = fnv1a(&x[j], 8, r.pthash);
-			if(!(x[j] >= c.lo[j] - slack[j] && x[j] <= c.hi[j] + slack[j]) && r.contained)
+			if(!(x[j] >= std::min(c.lo[j], c.hi[j]) - slack[j] && x[j] <= std::max(c.lo[j], c.hi[j]) + slack[j]) && r.contained)
 			{
 				r.contained = 0;
 				r.bad_axis	= j;
@@ -510,7 +510,7 @@ struct Exec
 			if(F.sup_dev <= 0.1 * F.sigma * std::sqrt(ne))
 			{
 				ctx.probe(P_ACCURACY_CHECKED);
-				double se = (double) F.volume * F.sigma / std::sqrt(ne);
+				double se = std::fabs((double) F.volume) * F.sigma / std::sqrt(ne);
 				double z  = std::fabs(r.value - (double) F.exact) / se;
 				ctx.metric_max(M_MAX_Z, z);
 				if(z > 6.0)
@@ -651,7 +651,7 @@ struct Exec
 		for(double e : est)
 			s2 += ((long double) e - m) * ((long double) e - m);
 		double s	  = (double) sqrtl(s2 / (K - 1));
-		double se_mc  = (double) F.volume * F.sigma / std::sqrt(ne);
+		double se_mc  = std::fabs((double) F.volume) * F.sigma / std::sqrt(ne);
 		double spread = std::max(s, 1e-3 * se_mc);	 // never judge against a spread far below what sampling can deliver
 		double z	  = (double) fabsl(m - F.exact) / spread;
 		ctx.metric_max(M_ENS_Z, z);
@@ -713,6 +713,13 @@ struct Gen
 				hi = lo + 1;
 			c.lo.push_back(lo);
 			c.hi.push_back(hi);
+		}
+		if(c.frontend != 4 && r.chance(0.15))
+		{
+			// some axes in descending order (the result changes sign once per reversed axis)
+			for(int j = 0; j < c.ndim; j++)
+				if(r.chance(0.5))
+					std::swap(c.lo[j], c.hi[j]);
 		}
 		if(c.frontend == 4)
 		{
